@@ -468,6 +468,7 @@ func main() {
 	kinds := map[string]int{}
 	fams := map[string]int{}
 	var mf, pf *os.File
+	var truncEOF []string
 	for i, c := range cases {
 		o := outs[i]
 		if o.kind == "panic" {
@@ -482,6 +483,10 @@ func main() {
 			fam = fam[:k]
 		}
 		fams[fam]++
+		if (fam == "trunc" || fam == "truncbig") && o.kind == "eof" {
+			// a proper prefix of a valid stream must not end in a clean EOF (oracle independent of the model)
+			truncEOF = append(truncEOF, c.Line())
+		}
 		if *verbose {
 			fmt.Printf("case %d %s: %s\n", i, c.Name, o.real)
 		}
@@ -523,6 +528,14 @@ func main() {
 		fmt.Printf(" [case %d %s stream=%d chunks=%d buf=%d %s: %.1fs]", i, cases[i].Name, len(cases[i].Stream), len(cases[i].Chunks), cases[i].BufSize, outs[i].real, outs[i].dur.Seconds())
 	}
 	fmt.Println()
+	if len(truncEOF) > 0 {
+		f, _ := os.Create("trunc-eof.txt")
+		for _, l := range truncEOF {
+			fmt.Fprintln(f, l)
+		}
+		f.Close()
+	}
+	fmt.Printf("truncated valid streams reported as clean EOF by the real Reader: %d\n", len(truncEOF))
 	if reuseCases > 0 {
 		fmt.Printf("reader-reuse cases: %d; in %d of them the real reused Reader differs from a new Reader on the second stream (see reuse-visible.txt)\n", reuseCases, len(reuseVisible))
 		if len(reuseVisible) > 0 {
